@@ -967,4 +967,118 @@ theorem implied_x_partial
   rw [hr]
   exact hcons f r.1 r.2 hr
 
+/-- **`implied_x_wrong_iff` — the F7 class as a theorem.** With a non-zero spacing and X words of the records that are
+consistent with a common origin `x0`, the implied X of a loaded frame differs from `x0 + frame·spacing` **exactly** for
+the frames of the records, other than the first loaded one, that are entered at an offset > 0 (`badList`): the list of
+"X is wrong" flags of the loaded frames equals `badList groups true`. (Errors never cancel: each such record adds
+`(a - step)·spacing` with `0 < a < step` to the error carried over from the previous loaded frame, and a record entered
+at offset 0 resets it.) -/
+theorem implied_x_wrong_iff
+    (d : Dfsr) (w : Nat) (s : Int) (rle : List Item01) (st : Store) (fsOld : Option FrameSet) (sl : Option Sl)
+    (chList : Option (List Nat))
+    (hi : IndCtx d ⟨w, d.chans.map Chan.size⟩ w) (hu : d.spacingUnits = d.depthUnits) (hs : d.spacing = some s)
+    (hcl : ∀ c ∈ selIdxI d chList, c < d.chans.length) (hne : selIdxI d chList ≠ [])
+    (hR : IncTells (expand rle))
+    (hst : ∀ tn ∈ expand rle, ∃ bs x, Store.find st tn.1.toNat = some bs ∧ bs.head? = some d.dataType ∧
+      bs.length = 2 + w + tn.2 * sumN (d.chans.map Chan.size) ∧ xDecode d.depthRc (beWord ((bs.drop 2).take w)) = .ok x)
+    (hlt : (slOrAll sl (rle01Total rle)).start < (slOrAll sl (rle01Total rle)).stop)
+    (hstop : (slOrAll sl (rle01Total rle)).stop ≤ rle01Total rle)
+    (hsp : spacingOf d s ≠ 0) (x0 : Int)
+    (hcons : ∀ f t off, locate (expand rle) f = some (t, off) →
+      xrecOf d st w t + (off : Int) * spacingOf d s = x0 + (f : Int) * spacingOf d s) :
+    ∃ xs, (setFrameSet ⟨d, ⟨w, d.chans.map Chan.size⟩, 0, rle, fsOld⟩ st sl chList).1.frameSet.map (·.xvec)
+        = some (xs.map some) ∧
+      List.zipWith (fun x (f : Nat) => decide (x ≠ x0 + (f : Int) * spacingOf d s)) xs
+          (rangeList (slOrAll sl (rle01Total rle)).start (slOrAll sl (rle01Total rle)).stop (slOrAll sl (rle01Total rle)).step1)
+        = badList (groupsOf (expand rle) (slOrAll sl (rle01Total rle)).start (slOrAll sl (rle01Total rle)).stop
+            (slOrAll sl (rle01Total rle)).step1) true := by
+  obtain ⟨ops, _, hx⟩ := implied_x_rule d w s rle st fsOld sl chList hi hu hs hcl hne hR hst hlt hstop
+  refine ⟨_, hx, ?_⟩
+  generalize hS : slOrAll sl (rle01Total rle) = S at hlt hstop ⊢
+  obtain ⟨a, b, cc0⟩ := S
+  simp only at hlt hstop ⊢
+  have hstep : 0 < (Sl.mk a b cc0).step1 := by unfold Sl.step1; split <;> omega
+  generalize (Sl.mk a b cc0).step1 = c at hstep ⊢
+  obtain ⟨hG, hflat, htl⟩ := groupsOf_spec (expand rle) hR a b c hstep (by rw [← expand_total]; exact hstop)
+  have hloc : ∀ f, f < b → ∃ q, locate (expand rle) f = some q ∧ (locate (expand rle) f).getD (0, 0) = q := by
+    intro f hf
+    obtain ⟨r, hr⟩ := locate_lt (expand rle) f (by rw [← expand_total]; omega)
+    exact ⟨r, hr, by simp [hr]⟩
+  have htx : ∀ f, f < b → tx (spacingOf d s) (xrecOf d st w) ((locate (expand rle) f).getD (0, 0)) = x0 + (f : Int) * spacingOf d s := by
+    intro f hf
+    obtain ⟨q, hq, hq'⟩ := hloc f hf
+    rw [hq']; exact hcons f q.1 q.2 hq
+  have hgetf : ∀ i f, (rangeList a b c)[i]? = some f → f = a + i * c ∧ f < b := by
+    intro i f h
+    have hm := mem_rangeList a b c f (List.mem_of_getElem? h)
+    refine ⟨?_, hm.2⟩
+    simp only [rangeList, List.getElem?_map] at h
+    cases hr : (List.range (rangeLen a b c))[i]? with
+    | none => rw [hr] at h; simp at h
+    | some j =>
+      rw [hr] at h
+      simp only [Option.map_some, Option.some.injEq] at h
+      have : j = i := by
+        have hl : i < (List.range (rangeLen a b c)).length := by
+          rcases Nat.lt_or_ge i (List.range (rangeLen a b c)).length with h' | h'
+          · exact h'
+          · rw [List.getElem?_eq_none h'] at hr; cases hr
+        rw [List.getElem?_eq_getElem hl, List.getElem_range] at hr
+        exact (Option.some.inj hr).symm
+      subst this; exact h.symm
+  have hstepx : StepX (spacingOf d s) (xrecOf d st w) c (flat (groupsOf (expand rle) a b c)) := by
+    intro i q q' h1 h2
+    rw [hflat, List.getElem?_map] at h1 h2
+    cases hf1 : (rangeList a b c)[i]? with
+    | none => rw [hf1] at h1; simp at h1
+    | some f1 =>
+      cases hf2 : (rangeList a b c)[i + 1]? with
+      | none => rw [hf2] at h2; simp at h2
+      | some f2 =>
+        rw [hf1] at h1; rw [hf2] at h2
+        simp only [Option.map_some, Option.some.injEq] at h1 h2
+        obtain ⟨e1, l1⟩ := hgetf i f1 hf1
+        obtain ⟨e2, l2⟩ := hgetf (i + 1) f2 hf2
+        rw [← h1, ← h2, htx f1 l1, htx f2 l2, e1, e2]
+        push_cast; ring
+  have hdev := allXs_dev (spacingOf d s) (xrecOf d st w) c hsp (groupsOf (expand rle) a b c) none true 0 0 hG.2
+    (by simpa using htl) (Or.inl ⟨rfl, rfl⟩) hstepx
+  rw [← hdev, hflat, List.zipWith_map_right]
+  apply List.ext_getElem
+  · simp
+  · intro i h1 h2
+    simp only [List.getElem_zipWith]
+    have hi' : i < (rangeList a b c).length := by simp at h1; omega
+    have := htx ((rangeList a b c)[i]) (mem_rangeList a b c _ (List.getElem_mem hi')).2
+    rw [this]
+
+/-- the F7 witness: 3 records × 5 frames, `slice(0,16,2)`: wrong exactly at the two frames loaded from the second record -/
+example : badList (groupsOf (expand lpW.rle) 0 16 2) true = [false, false, false, true, true, false, false, false] := by
+  decide
+
+/-- **Step 1 is always right**: with step 1 (or `None`) every later record is entered at offset 0. -/
+theorem implied_x_step1
+    (d : Dfsr) (w : Nat) (s : Int) (rle : List Item01) (st : Store) (fsOld : Option FrameSet) (sl : Option Sl)
+    (chList : Option (List Nat))
+    (hi : IndCtx d ⟨w, d.chans.map Chan.size⟩ w) (hu : d.spacingUnits = d.depthUnits) (hs : d.spacing = some s)
+    (hcl : ∀ c ∈ selIdxI d chList, c < d.chans.length) (hne : selIdxI d chList ≠ [])
+    (hR : IncTells (expand rle))
+    (hst : ∀ tn ∈ expand rle, ∃ bs x, Store.find st tn.1.toNat = some bs ∧ bs.head? = some d.dataType ∧
+      bs.length = 2 + w + tn.2 * sumN (d.chans.map Chan.size) ∧ xDecode d.depthRc (beWord ((bs.drop 2).take w)) = .ok x)
+    (hlt : (slOrAll sl (rle01Total rle)).start < (slOrAll sl (rle01Total rle)).stop)
+    (hstop : (slOrAll sl (rle01Total rle)).stop ≤ rle01Total rle)
+    (hstep1 : (slOrAll sl (rle01Total rle)).step1 = 1) (x0 : Int)
+    (hcons : ∀ f t off, locate (expand rle) f = some (t, off) →
+      xrecOf d st w t + (off : Int) * spacingOf d s = x0 + (f : Int) * spacingOf d s) :
+    (setFrameSet ⟨d, ⟨w, d.chans.map Chan.size⟩, 0, rle, fsOld⟩ st sl chList).1.frameSet.map (·.xvec)
+      = some ((rangeList (slOrAll sl (rle01Total rle)).start (slOrAll sl (rle01Total rle)).stop
+          (slOrAll sl (rle01Total rle)).step1).map (fun (f : Nat) => some (x0 + (f : Int) * spacingOf d s))) := by
+  apply implied_x_partial d w s rle st fsOld sl chList hi hu hs hcl hne hR hst hlt hstop _ x0 hcons
+  obtain ⟨_, _, htl⟩ := groupsOf_spec (expand rle) hR (slOrAll sl (rle01Total rle)).start (slOrAll sl (rle01Total rle)).stop
+    (slOrAll sl (rle01Total rle)).step1 (by rw [hstep1]; omega) (by rw [← expand_total]; exact hstop)
+  intro e he
+  have := htl e he
+  rw [hstep1] at this
+  omega
+
 end TD.C06
